@@ -3,6 +3,7 @@ import LlgVerif.Model.Ffi
 import LlgVerif.Model.Trie
 import LlgVerif.Model.Cache
 import LlgVerif.Spec.Regex
+import LlgVerif.Model.Repeat
 import Driver.Util
 open LlgVerif Drv
 
@@ -223,6 +224,22 @@ def handleRx (st : St) (args : List String) : St × String :=
     | _, _ => (st, "bad-op")
   | _ => (st, "bad-op")
 
+/-- `rep counts K m n|inf bound`: counts ≤ bound derived by `GrammarBuilder::repeat(elt, m, n)` -/
+def handleRep (args : List String) : String :=
+  match args with
+  | ["counts", k, m, n, bound] =>
+    match parseNat? k, parseNat? m, parseNat? bound with
+    | some k, some m, some bound =>
+      let mx : Option (Option Nat) := if n = "inf" then some none else (parseNat? n).map some
+      match mx with
+      | some mx =>
+        match GExp.repeat? k GExp.elt m mx with
+        | some g => s!"ok {showNatList (canonSet (GExp.countsUpTo bound g))}"
+        | none => "err"
+      | none => "bad-op"
+    | _, _, _ => "bad-op"
+  | _ => "bad-op"
+
 def handleTrie (st : St) (args : List String) : St × String :=
   match args with
   | ["build", ws] =>
@@ -277,6 +294,7 @@ def step (st : St) (line : String) : St × String :=
   | "svob" :: args => handleSvob st args
   | "cache" :: args => handleCache st args
   | "rx" :: args => handleRx st args
+  | "rep" :: args => (st, handleRep args)
   | "rb" :: args => handleRb st args
   | ["reset"] => ({}, "ok")
   | _ => (st, "bad-op")
